@@ -570,6 +570,7 @@ func (e *Engine) verifyFunctionCase(fn *ssa.Function, spec *FuncSpec, props []st
 		res.Obls = nil
 		return res
 	}
+	x.flushLabelledGuards()
 	// postconditions
 	extra := map[string]Val{}
 	for i, r := range ex.results {
